@@ -15,7 +15,7 @@ SPECIAL_BYTES = [b" ", b"  ", b"-", b">", b" -> ", b"/", b"M", b'"', b"'", b"d",
 def perm(rng):
     r = rng.random()
     if r < 0.85:
-        return rng.choice(["rwxr-xr-x", "rw-r--r--", "rwxrwxrwx", "---------", "rwsr-sr-t", "rwxr-xr-t", "r--r--r--"])
+        return rng.choice(["rwxr-xr-x", "rw-r--r--", "rwxrwxrwx", "---------", "rwsr-sr-t", "rwxr-xr-t", "r--r--r--", "rwSr-Sr-T", "rw-r-Sr--", "rwxrwxrwT"])
     return "".join(rng.choice("rwx-stST?") for _ in range(rng.choice([9, 9, 9, 8, 10, 3])))
 
 
@@ -318,14 +318,8 @@ def wf_pasv(rng):
 
 
 def wf_dir(rng):
-    d = ""
-    for _ in range(rng.randint(0, 12)):
-        if rng.random() < 0.2 and not d.endswith('"'):
-            d += '"'
-        else:
-            d += rng.choice("abc/ .-_é日'")
-    if d.endswith('"'):
-        d += "x"
+    # any path: quotes anywhere, several in a row, at the very end (C19_directory_exact holds for every d since the F08 repair)
+    d = "".join('"' if rng.random() < 0.25 else rng.choice("abc/ .-_é日'") for _ in range(rng.randint(0, 12)))
     pre = _text_without(rng, '"')
     post = "" if rng.random() < 0.3 else rng.choice("abc .-é") + _text_without(rng, "")
     return d, pre + '"' + d.replace('"', '""') + '"' + post
